@@ -21,6 +21,7 @@ LEVEL_TEXT = ("Bounded contract on the real Pipeline.subpipeline / map(output_na
               "bounded rung ('exploration').")
 LEVEL_NOTE = ("Bounds: DAGs of 1..4 functions over roots {x,y,z}; I contains exactly the needed names (surplus inputs are "
               "C12's business). Trusted: reference evaluator rtc/dag.py.")
+LEVEL_NOTE += (' Also the whole pipeline requested through map(auto_subpipeline=True) without output_names (from the root arguments alone, with or without those that have defaults), and provided values that are None.')
 TECHNIQUE = ("bounded contract checking of output selection against a reference evaluator; _validate_complete_inputs "
              "discharged by z3")
 EXPLANATION = LEVEL_TEXT
